@@ -71,6 +71,65 @@ def derivatives_native(vc):
     vc.ensures("gradient_covariance_is_prior_minus_explained", bool(ok_formula))
 
 
+@bounded("C16", "derivatives_any_kernel_native", native_runs=16)
+def derivatives_any_kernel_native(vc):
+    """every covariance function for which gradient() / spatial_derivatives() RETURN a result (rather than refusing with
+    NotImplementedError) returns the derivative of the regressor's own predictions: sums of kernels, kernels plus noise,
+    rational-quadratic and change-point kernels (reference: finite differences of __call__)"""
+    from inference.gp import GpRegressor, SquaredExponential, RationalQuadratic, WhiteNoise, ChangePoint, ConstantMean
+    from contracts.gp_common import hyperpars_for
+    seed = vc.int("seed", lo=0, hi=10 ** 6)
+    rng = np.random.default_rng(seed)
+    d = vc.int("d", lo=1, hi=2)
+    n = vc.int("n", lo=3, hi=10)
+    kind = vc.choice("kernel", ["se+se", "se+noise", "rq", "se+rq", "changepoint", "se+se+noise"])
+    x = rng.normal(size=(n, d)) * 1.5
+    y = np.sin(x.sum(axis=1)) + 0.5 * x[:, 0] + 0.1 * rng.normal(size=n)
+    K = {"se+se": lambda: SquaredExponential() + SquaredExponential(), "se+noise": lambda: SquaredExponential() + WhiteNoise(),
+         "rq": lambda: RationalQuadratic(), "se+rq": lambda: SquaredExponential() + RationalQuadratic(),
+         "changepoint": lambda: ChangePoint(kernels=[SquaredExponential(), SquaredExponential()], axis=0),
+         "se+se+noise": lambda: SquaredExponential() + SquaredExponential() + WhiteNoise()}[kind]()
+    M = ConstantMean()
+    K.pass_spatial_data(x)
+    M.pass_spatial_data(x)
+    theta = hyperpars_for(list(M.hyperpar_labels) + list(K.hyperpar_labels), rng, x)
+    gp = GpRegressor(x, y, y_err=np.full(n, 0.05), kernel=K, mean=M, hyperpars=theta)
+    q = rng.normal(size=(2, d))
+    h = 1e-5
+
+    def fd(f, p):
+        g = np.zeros(d)
+        for c in range(d):
+            e = np.zeros(d)
+            e[c] = h
+            g[c] = (-f(p + 2 * e) + 8 * f(p + e) - 8 * f(p - e) + f(p - 2 * e)) / (12 * h)
+        return g
+
+    mu_of = lambda p: gp(p[None, :])[0][0]
+    var_of = lambda p: gp(p[None, :])[1][0] ** 2
+    dmu_fd = np.array([fd(mu_of, q[k]) for k in range(2)])
+    dvar_fd = np.array([fd(var_of, q[k]) for k in range(2)])
+    sc = max(1.0, float(np.abs(dmu_fd).max()))
+    ok_g = ok_s = ok_v = ok_psd = True
+    try:
+        g_mean, g_cov = gp.gradient(q)
+        ok_g = bool(np.allclose(np.reshape(g_mean, (2, d)), dmu_fd, rtol=1e-5, atol=1e-6 * sc))
+        for Cg in np.reshape(g_cov, (2, d, d)):
+            ok_psd = ok_psd and bool(np.linalg.eigvalsh(0.5 * (Cg + Cg.T)).min() >= -1e-9 * max(1.0, abs(np.trace(Cg))))
+    except NotImplementedError:
+        pass
+    try:
+        s_mean, s_var = gp.spatial_derivatives(q)
+        ok_s = bool(np.allclose(np.reshape(s_mean, (2, d)), dmu_fd, rtol=1e-5, atol=1e-6 * sc))
+        ok_v = bool(np.allclose(np.reshape(s_var, (2, d)), dvar_fd, rtol=1e-4, atol=1e-6 * max(1.0, float(np.abs(dvar_fd).max()))))
+    except NotImplementedError:
+        pass
+    vc.ensures("gradient_mean_is_derivative_of_predictive_mean_or_refused", ok_g)
+    vc.ensures("gradient_covariance_positive_semidefinite_or_refused", ok_psd)
+    vc.ensures("spatial_derivative_mean_is_derivative_of_predictive_mean_or_refused", ok_s)
+    vc.ensures("variance_derivative_is_derivative_of_predictive_variance_or_refused", ok_v)
+
+
 # ================================================================================================
 # proof layer
 # ================================================================================================
